@@ -38,6 +38,7 @@ const (
 var goSrcFuncs = []string{
 	"Iter.moveToEnd", "Iter.calcNext", "Iter.Type", "Iter.Advance", "Iter.AdvanceInto", "Iter.AdvanceIter",
 	"Iter.PeekNext", "Iter.PeekNextTag",
+	"Iter.SetFloat", "Iter.SetInt", "Iter.SetUInt", "Iter.SetBool", "Iter.SetNull", "Iter.SetStringBytes",
 }
 
 type goBlock struct {
@@ -85,6 +86,14 @@ func tyOfTypeExpr(e ast.Expr) gty {
 			return tyBool
 		case "error":
 			return tyErr
+		case "float64":
+			return tyU64 // a float64 is carried as its bit pattern; only Float64bits / Float64frombits may touch it
+		}
+	case *ast.ArrayType:
+		if t.Len == nil {
+			if id, ok := t.Elt.(*ast.Ident); ok && id.Name == "byte" {
+				return tyBytes
+			}
 		}
 	}
 	return tyUnk
@@ -308,6 +317,21 @@ func (t *gsTr) expr(e ast.Expr, want gty) (string, gty) {
 				return fmt.Sprintf("(.conv %s %s)", tyName(ty), a), ty
 			}
 		}
+		if f := nows(src(x.Fun)); (f == "math.Float64bits" || f == "math.Float64frombits") && len(x.Args) == 1 {
+			a, aty := t.expr(x.Args[0], tyU64)
+			if aty != tyU64 {
+				gsDie(e, "float bits operand")
+			}
+			return a, tyU64
+		}
+		if id, ok := x.Fun.(*ast.Ident); ok && id.Name == "append" && len(x.Args) == 2 && x.Ellipsis.IsValid() {
+			a, aty := t.expr(x.Args[0], tyBytes)
+			b, bty := t.expr(x.Args[1], tyBytes)
+			if aty != tyBytes || bty != tyBytes {
+				gsDie(e, "append operands")
+			}
+			return fmt.Sprintf("(.appendB %s %s)", a, b), tyBytes
+		}
 		if nows(src(x.Fun)) == "binary.LittleEndian.Uint64" && len(x.Args) == 1 {
 			a, aty := t.expr(x.Args[0], tyUnk)
 			if aty != tyBytes {
@@ -470,6 +494,9 @@ func (t *gsTr) lvalue(e ast.Expr) (string, gty) {
 			return x.Name, ty
 		}
 	case *ast.SelectorExpr:
+		if ty, ok := t.frees[nows(src(e))]; ok {
+			return nows(src(e)), ty
+		}
 		if id, ok := x.X.(*ast.Ident); ok && t.iters[id.Name] {
 			if ty, ok := t.fields[x.Sel.Name]; ok && ty != tyUnk {
 				return id.Name + "." + x.Sel.Name, ty
@@ -815,6 +842,8 @@ func genGoSrc(p *pkgInfo, out string) {
 		}
 		t := &gsTr{p: p, fn: fn, iters: map[string]bool{}, locals: map[string]gty{}}
 		t.iterFieldTypes()
+		// the string buffer shared by every copy of the ParsedJson header (a pointer in Go): one variable
+		t.frees = map[string]gty{"i.tape.Strings.B": tyBytes}
 		if fd.Recv == nil || len(fd.Recv.List) != 1 || len(fd.Recv.List[0].Names) != 1 {
 			die("gosrc: %s: receiver", fn)
 		}
@@ -833,7 +862,7 @@ func genGoSrc(p *pkgInfo, out string) {
 					}
 				}
 				ty := tyOfTypeExpr(f.Type)
-				if ty != tyInt && ty != tyU64 && ty != tyU8 && ty != tyBool {
+				if ty != tyInt && ty != tyU64 && ty != tyU8 && ty != tyBool && ty != tyBytes {
 					die("gosrc: %s: parameter %s has an unsupported type", fn, nm.Name)
 				}
 				t.locals[nm.Name] = ty
